@@ -29,7 +29,7 @@ class C08(PoolScenario):
     profiles = ["reweight", "reweight", "transform"]
     budgets = {"quick": 16000, "thorough": 300000}
     wall_caps = {"quick": 110, "thorough": 1500}
-    ops = {"new": 1, "fill": 9, "add": 3, "mul": 6, "ship": 1.5, "copy": 0.7, "probe": 3, "use": 3, "twin_fill": 3}
+    ops = {"new": 1, "fill": 9, "fillnumpy": 2.5, "add": 3, "mul": 6, "ship": 1.5, "copy": 0.7, "probe": 3, "use": 3, "twin_fill": 3}
     wires = ["json", "pickle", "jsonstr"]
     factors_odd = 0.2
     rule = ("one run = a pool history in which partials are scaled by factors from {positive dyadics, ints, 0, "
@@ -74,6 +74,9 @@ class C08(PoolScenario):
             return
         sp = w.specs[m["k"]]
         doc = observe.observe(w.heap[h])
+        if m.get("vectorised"):
+            # fill.numpy creates a (zero-weight) category / sparse bin for every value present in a batch: not content
+            doc = {"type": doc["type"], "data": observe.drop_empty(doc["type"], doc["data"]), "version": doc["version"]}
         mod = model.model_doc(sp, [(w.records[i], wt) for i, wt in m["cover"]])
         if m.get("named_lost"):
             pass
@@ -95,7 +98,35 @@ class C08(PoolScenario):
             raise self.violation(exc_site(o.exc)[0], what, "exception:%s" % type(o.exc).__name__, "%s raised %s" % (what, o.describe()), si)
         return o.value
 
+    def generate(self, rng, tier, profile):
+        case = super().generate(rng, tier, profile)
+        k = rng.fork("tolerance")
+        # histogrammar.util.relativeTolerance / absoluteTolerance are a knob of ==, not of * : small positive factors stay factors
+        case["tol"] = k.pick([0.0, 0.0, 0.0, 1e-9, 1e-6])
+        case["tolmode"] = k.pick(["both", "abs", "rel"])
+        muls = [st for st in case["steps"] if st["op"] == "mul"]
+        if muls and k.chance(0.5):
+            # one small dyadic factor per history (more of them would spread the weights over more than 53 bits and the
+            # exact reference sums would no longer be what floating point delivers)
+            k.pick(muls)["f"] = specmod.enc_float(k.pick([2.0 ** -20, 2.0 ** -20, 2.0 ** -10]))
+        return case
+
     def run(self, case, w, R):
+        import histogrammar.util as util
+
+        old = (util.relativeTolerance, util.absoluteTolerance)
+        tol = float(case.get("tol") or 0.0)
+        if tol > 0.0:
+            mode = case.get("tolmode", "both")
+            util.relativeTolerance = tol if mode in ("both", "rel") else 0.0
+            util.absoluteTolerance = tol if mode in ("both", "abs") else 0.0
+            w.bump("probe_tolerance_configured")
+        try:
+            return self._run(case, w, R)
+        finally:
+            util.relativeTolerance, util.absoluteTolerance = old
+
+    def _run(self, case, w, R):
         from histogrammar.defs import ContainerException
 
         R["shape"] = "|".join(specmod.shape_key(s) for s in case["specs"])
@@ -181,6 +212,18 @@ class C08(PoolScenario):
                     w.bump("probe_scaled_then_filled")
                     ncont += 1
                 self.expect(w, st["obj"], si, "fill")
+            elif op == "fillnumpy":
+                self.must(o, "fillnumpy", si)
+                mm = m[st["obj"]]
+                ws_ = [1.0] * len(st["rows"]) if st["weights"] == "one" else [float(x) for x in st["row_weights"]] if st["weights"] == "array" \
+                    else [float(st["weights"])] * len(st["rows"])
+                if mm.get("cover") is not None:
+                    mm["cover"] += [(i, wt_) for i, wt_ in zip(st["rows"], ws_)]
+                mm["vectorised"] = True
+                if mm.get("scaled"):
+                    w.bump("probe_scaled_then_filled")
+                    ncont += 1
+                self.expect(w, st["obj"], si, "fillnumpy")
             elif op == "mul":
                 f = specmod.dec_float(st["f"])
                 src = st["obj"]
@@ -197,6 +240,7 @@ class C08(PoolScenario):
                 cov = m[src].get("cover")
                 m[st["out"]]["cover"] = None if cov is None else scale_cover(cov, f)
                 m[st["out"]]["scaled"] = True
+                m[st["out"]]["vectorised"] = m[src].get("vectorised")
                 w.bump("fault_reweight")
                 if f != f or f <= 0:
                     w.bump("probe_odd_factor")
@@ -208,6 +252,7 @@ class C08(PoolScenario):
                 ca, cb = m[st["l"]].get("cover"), m[st["r"]].get("cover")
                 m[st["out"]]["cover"] = None if ca is None or cb is None else ca + cb
                 m[st["out"]]["scaled"] = m[st["l"]].get("scaled") or m[st["r"]].get("scaled")
+                m[st["out"]]["vectorised"] = m[st["l"]].get("vectorised") or m[st["r"]].get("vectorised")
                 if m[st["out"]]["scaled"]:
                     w.bump("probe_scaled_then_merged")
                     ncont += 1
@@ -221,6 +266,7 @@ class C08(PoolScenario):
                     m[st["out"]]["cover"] = None
                     m[st["out"]]["k_plain"] = True
                 m[st["out"]]["scaled"] = m[st["obj"]].get("scaled")
+                m[st["out"]]["vectorised"] = m[st["obj"]].get("vectorised")
                 self.expect(w, st["out"], si, op)
             w.record_step(st)
         R["nontrivial"] = nscaled >= 2 and ncont >= 1
